@@ -17,7 +17,8 @@ GENERIC_WORKER = [["read_declared"], ["write_declared"]]
 
 def worker_script(dyn_inp=(), dyn_out=(), hold_steps=None, fail=False, unlink=(), const_out=False,
                   clobber=None):
-    ops = []
+    # a switch outside the workflow (not a declared dependency) that makes the command fail early
+    ops = [["if_env", "VV_FAIL", "1", [["exit", 1]]]]
     if dyn_inp:
         ops.append(["amend", {"inp": list(dyn_inp)}])
         for p in dyn_inp:
